@@ -261,10 +261,10 @@ type c09Time struct {
 }
 
 type c09instant struct {
-	text  string // "" = now()
+	text                   string // "" = now()
 	y, mo, d, h, mi, s, ns int
-	off   int  // seconds east, when fixed by the spelling
-	fixed bool // the spelling carries its own offset
+	off                    int  // seconds east, when fixed by the spelling
+	fixed                  bool // the spelling carries its own offset
 }
 
 var c09instants = []c09instant{
